@@ -102,7 +102,7 @@ class Parameter(common.Parseable, common.XmlObject):
             "name": self.name,
             "parameterTypeRef": self.parameter_type.name,
         }
-        if self.short_description:
+        if self.short_description is not None:
             parameter_attrib["shortDescription"] = self.short_description
 
         element = elmaker.Parameter(
